@@ -263,6 +263,49 @@ func bechCorrupted(s, s2, family string, corr bool) {
 	}
 }
 
+// bechCaseVariant: s2 differs from the accepted s only in the case of letters (any number of them, in
+// the data part and/or the human-readable part).  The only such strings a bech32 decoder accepts are
+// the all-lower-case and the all-upper-case forms of s (C03_bech32_mixed_case_rejected); every other one
+// is a substitution that must be rejected.
+func bechCaseVariant(s, s2, family string, corr bool) {
+	if strings.ToLower(s2) != strings.ToLower(s) || s2 == strings.ToLower(s) || s2 == strings.ToUpper(s) {
+		return
+	}
+	w := hamming(s, s2)
+	o := bechDecode(s2)
+	rep.Count("bech-case-"+family, "bc"+s2, true)
+	rep.Histogram["bech32 case-only change"]++
+	if o.panicked {
+		rep.Violate("C03:bech32:substitution_panic", "bech32.Decode panicked on a case variant of an accepted string",
+			map[string]interface{}{"code": "bech32", "valid": s, "corrupted": s2, "weight": w, "panic": o.msg})
+		return
+	}
+	if o.ok {
+		rep.Violate("C03:bech32:case_variant_accepted", fmt.Sprintf("bech32.Decode accepts a mixed-case string that differs from a valid string in the case of %d characters", w),
+			map[string]interface{}{"code": "bech32", "valid": s, "corrupted": s2, "weight": w, "family": family, "decoded_hrp": o.hrp, "decoded_data": vh.Hex(o.data)})
+	}
+	if corr {
+		bechCase(s2, o)
+	}
+}
+
+// flipCase changes the case of k letters of s at positions >= from (fewer when there are not that many).
+func flipCase(r *vh.RNG, s string, from, k int) string {
+	b := []byte(s)
+	var letters []int
+	for i := from; i < len(b); i++ {
+		if c := b[i] | 0x20; c >= 'a' && c <= 'z' {
+			letters = append(letters, i)
+		}
+	}
+	for j := 0; j < k && len(letters) > 0; j++ {
+		q := r.Intn(len(letters))
+		b[letters[q]] ^= 0x20
+		letters = append(letters[:q], letters[q+1:]...)
+	}
+	return string(b)
+}
+
 // alphabets for substitutions
 var alnum = func() []byte {
 	var a []byte
@@ -380,7 +423,11 @@ func exhaustiveLowWeight(code, s string, bodyStart int, alphabet []byte, doPairs
 			}
 		} else {
 			lo := strings.ToLower(s2)
-			if lo == strings.ToLower(s) || strings.LastIndexByte(s2, '1') != bodyStart-1 {
+			if lo == strings.ToLower(s) {
+				bechCaseVariant(s, s2, family, false)
+				return
+			}
+			if strings.LastIndexByte(s2, '1') != bodyStart-1 {
 				return
 			}
 			o := bechDecode(s2)
@@ -1091,6 +1138,12 @@ func main() {
 			s2 := substitute(r, "cashaddr", s, st, w)
 			cashCorrupted(s, s2, "random", k < 3 && i%2 == 0)
 		}
+		// change of case of 1..5 payload letters only (a mixed-case string)
+		for k := 0; k < 4; k++ {
+			if s2 := flipCase(r, s, st, 1+r.Intn(5)); s2 != s {
+				cashCorrupted(s, s2, "case", false)
+			}
+		}
 		// through DecodeAddress as well (mainnet prefix only)
 		if prefix == "bitcoincash" && len(s)-st == 42 {
 			s2 := substitute(r, "cashaddr", s, st, 1+r.Intn(5))
@@ -1136,6 +1189,22 @@ func main() {
 			w := 1 + r.Intn(4)
 			s2 := substitute(r, "bech32", s, st, w)
 			bechCorrupted(s, s2, "random", k < 3 && i%2 == 0)
+		}
+		// change of case of 1..4 letters of the data part, of some letters anywhere (upper-case original
+		// too): mixed-case strings, rejected whatever the checksum says
+		for k := 0; k < 6; k++ {
+			base := s
+			if k%2 == 1 {
+				base = strings.ToUpper(s)
+			}
+			if o := bechDecode(base); !o.ok {
+				continue
+			}
+			from, cnt := st, 1+r.Intn(4)
+			if k >= 4 {
+				from, cnt = 0, 1+r.Intn(len(s))
+			}
+			bechCaseVariant(base, flipCase(r, base, from, cnt), "random", k == 0 && i%4 == 0)
 		}
 		// consistent change of case of the whole string is the same address
 		if o := bechDecode(strings.ToUpper(s)); !o.ok && s == strings.ToLower(s) {
